@@ -12,6 +12,7 @@ pub(super) fn generate_chain_method(
     interface_name: &str,
     _trait_generics: &syn::Generics,
     method_attrs: &MethodAttrs,
+    param_renames: &[Option<String>],
     crate_path: &TokenStream,
 ) -> Result<(TokenStream, TokenStream), Error> {
     let method_name_str = method.sig.ident.to_string();
@@ -38,7 +39,7 @@ pub(super) fn generate_chain_method(
     let method_where_clause = method.sig.generics.where_clause.clone();
 
     // Parse method arguments (skip &mut self)
-    let arg_infos = parse_method_arguments(method, has_explicit_lifetimes)?;
+    let arg_infos = parse_method_arguments(method, has_explicit_lifetimes, param_renames)?;
     let arg_names: Vec<_> = arg_infos.iter().map(|info| info.name).collect();
     let has_any_lifetime = arg_infos.iter().any(|info| info.has_lifetime);
 
@@ -90,6 +91,7 @@ pub(super) fn generate_chain_method(
         &method_where_clause,
         has_any_lifetime,
         has_explicit_lifetimes,
+        method_attrs.is_streaming,
         crate_path,
     );
 
@@ -114,7 +116,9 @@ pub(super) fn generate_chain_method(
 fn parse_method_arguments<'a>(
     method: &'a mut syn::TraitItemFn,
     has_explicit_lifetimes: bool,
+    param_renames: &[Option<String>],
 ) -> Result<Vec<ArgInfo<'a>>, Error> {
+    let mut renames = param_renames.iter();
     method
         .sig
         .inputs
@@ -145,8 +149,8 @@ fn parse_method_arguments<'a>(
                 name,
                 ty_for_params,
                 has_lifetime,
-                is_optional: false,
-                serialized_name: None,
+                is_optional: crate::utils::is_option_type(ty),
+                serialized_name: renames.next().cloned().flatten(),
             }))
         })
         .collect()
@@ -184,6 +188,7 @@ fn generate_method_call_creation(
     method_where_clause: &Option<syn::WhereClause>,
     has_any_lifetime: bool,
     has_explicit_lifetimes: bool,
+    is_streaming: bool,
     crate_path: &TokenStream,
 ) -> TokenStream {
     if !arg_names.is_empty() {
@@ -192,7 +197,9 @@ fn generate_method_call_creation(
             .map(|info| {
                 let name = info.name;
                 let ty = &info.ty_for_params;
-                quote! { pub #name: #ty }
+                // Same wire name and `None` handling as the plain method.
+                let serde_attrs = super::utils::param_serde_attrs(info);
+                quote! { #serde_attrs pub #name: #ty }
             })
             .collect();
 
@@ -249,7 +256,7 @@ fn generate_method_call_creation(
             let method_call = #wrapper_enum_name::Method(#params_struct_name {
                 #(#arg_names,)*
             });
-            let call = #crate_path::Call::new(method_call);
+            let call = #crate_path::Call::new(method_call).set_more(#is_streaming);
         }
     } else {
         // Create unique enum name for this method to avoid conflicts
@@ -270,7 +277,7 @@ fn generate_method_call_creation(
             }
 
             let method_call = #wrapper_enum_name::Method;
-            let call = #crate_path::Call::new(method_call);
+            let call = #crate_path::Call::new(method_call).set_more(#is_streaming);
         }
     }
 }
